@@ -147,6 +147,25 @@ RETENTION_REQUESTS = {
 }
 
 
+# request templates whose client-supplied text is different in every request (i = a counter that never repeats)
+GROWTH_TEMPLATES = {
+    'unknown-method': lambda i: {'jsonrpc': '2.0', 'id': i, 'method': f'nope_{i}'},
+    'unknown-dotted-method': lambda i: {'jsonrpc': '2.0', 'id': i, 'method': f'svc{i}.sub{i}.call'},
+    'unknown-method-notification': lambda i: {'jsonrpc': '2.0', 'method': f'gone_{i}'},
+    'ok-varying-argument': lambda i: {'jsonrpc': '2.0', 'id': i, 'method': 'meth', 'params': {'a': 100000 + i}},
+    'ok-varying-string-id': lambda i: {'jsonrpc': '2.0', 'id': f'request-{i}', 'method': 'meth', 'params': [7]},
+    'rpc-error-varying-argument': lambda i: {'jsonrpc': '2.0', 'id': i, 'method': 'meth', 'params': {'a': 100000 + i, 'fail': 'rpc'}},
+    'exception-varying-argument': lambda i: {'jsonrpc': '2.0', 'id': i, 'method': 'meth', 'params': {'a': 100000 + i, 'fail': 'exc'}},
+    'does-not-bind-varying-name': lambda i: {'jsonrpc': '2.0', 'id': i, 'method': 'meth', 'params': {f'zz{i}': 1}},
+    'does-not-validate-varying-value': lambda i: {'jsonrpc': '2.0', 'id': i, 'method': 'meth', 'params': {'a': f'not-an-int-{i}'}},
+    'rejected-varying-version': lambda i: {'jsonrpc': f'1.{i}', 'id': i, 'method': 'meth'},
+    'batch-varying': lambda i: [{'jsonrpc': '2.0', 'id': f'b{i}', 'method': f'nope_{i}'}, {'jsonrpc': '2.0', 'method': 'meth', 'params': [i]},
+                                {'jsonrpc': '2.0', 'id': i, 'method': 'meth', 'params': {'a': 1, 'fail': 'rpc'}}],
+    'not-json-varying': lambda i: None,
+}
+GROWTH_COUNTER = [0]
+
+
 class C13(Check):
     pid = 'C13'
     level = 'exploration'
@@ -159,18 +178,20 @@ class C13(Check):
         "probe served by a fresh dispatcher built from the same spec - also for same-named functions with different annotations that share one PydanticValidator instance and for methods with different per-method arguments that share one JsonSchemaValidator instance; (b) retention: N in {1, 10, 1000} dispatches, a fresh weak-"
         "referenceable context object each, for function methods, class based view methods with and without a constructor context, a context-only method called without params and a context-free method x validator {base, jsonschema, pydantic} x "
         "sync / async x request kinds (ok, notification, raises, does not bind / validate, unknown, rejected, batch, non-JSON): after gc no "
-        "context object and no view instance is alive; (c) 2..16 threads dispatching rotated corpora through one shared dispatcher with "
+        "context object and no view instance is alive; (b2) growth: three passes of N in {100, 200, 1000} requests whose client-supplied text never repeats (unknown and dotted method names, argument values, "
+        "string ids, unknown parameter names, invalid values, versions, batches, non-JSON) - the number of gc-tracked objects alive after the third pass exceeds the number after the second by less than N/2; (c) 2..16 threads dispatching rotated corpora through one shared dispatcher with "
         "sys.setswitchinterval(1e-6): every response equals the single-threaded response. non-trivial = history with >= 1 failing and >= 1 "
         "batch request before the probe / retention with N >= 10 / thread run with >= 2 threads; distinct = distinct spec."
     )
     assumptions = [
         "methods keep no state of their own (echo / scripted failure)",
-        "'memory does not grow' is decided through retained references (weak references to contexts and view instances), not by measuring process memory",
+        "'memory does not grow' is decided through retained references (weak references to contexts and view instances) and through the count of gc-tracked objects across passes of never-repeating requests (threshold: half an object per request), not by measuring process memory",
         "thread schedules are sampled by the OS, not controlled: part (c) can expose a race, it cannot exclude one",
     ]
     trusted_base = ['python gc / weakref', 'pbt/refserver.py (class labels only)']
     required_classes = ['history/nontrivial', 'retention/func', 'retention/view', 'retention/view-noctx', 'retention/base', 'retention/jsonschema', 'retention/pydantic',
-                        'retention/n=1000', 'threads/run', 'vhistory/two-methods-before-probe']
+                        'retention/n=1000', 'threads/run', 'vhistory/two-methods-before-probe', 'growth/run',
+                        'growth/unknown-method', 'growth/batch-varying']
 
     # ---- generation -------------------------------------------------------------------------------------
 
@@ -198,13 +219,26 @@ class C13(Check):
                           st.sampled_from([[1], ['1'], ['x'], [[1, 2]], [None], [], [1.5], [{'a': 1}], ['1.2.3.4'], ['not-an-ip']]))
         vhistory = st.builds(lambda d, h, p, c: {'kind': 'vhistory', 'dispatcher': d, 'history': [list(x) for x in h], 'probe': list(p), 'coerce': c},
                              st.sampled_from(['sync', 'async']), st.lists(vcall, max_size=6), vcall, st.booleans())
-        return st.one_of(hist('sync'), hist('async'), hist('sync'), hist('async'), retention, retention, threads('sync'), vhistory)
+        growth = st.builds(
+            lambda d, v, f, t: {'kind': 'growth', 'dispatcher': d, 'validator': v, 'flavour': f, 'n': 100, 'templates': t},
+            st.sampled_from(['sync', 'async']), st.sampled_from(['base', 'jsonschema', 'pydantic']), st.sampled_from(['func', 'view', 'view-noctx']),
+            st.lists(st.sampled_from(sorted(GROWTH_TEMPLATES)), min_size=1, max_size=3, unique=True),
+        )
+        return st.one_of(hist('sync'), hist('async'), hist('sync'), hist('async'), retention, retention, threads('sync'), vhistory, growth)
 
     def enumerate(self, tier: str):
         # the N = 1000 matrix: flavour x validator x dispatcher (12 cells)
         if tier != 'quick':
             return None
-        return self._matrix([1000])
+        return self._matrix([1000]) + self._growth_matrix(200)
+
+    def _growth_matrix(self, n):
+        out = []
+        for d in ('sync', 'async'):
+            for k, (v, f) in enumerate((('base', 'func'), ('jsonschema', 'view'), ('pydantic', 'view-noctx'))):
+                for name in sorted(GROWTH_TEMPLATES):
+                    out.append({'kind': 'growth', 'dispatcher': d, 'validator': v, 'flavour': f, 'n': n, 'templates': [name]})
+        return out
 
     def _matrix(self, ns):
         out = []
@@ -222,7 +256,7 @@ class C13(Check):
     def enumerate_shard(self, tier: str, shard: int, nshards: int):
         cells = self._matrix([1, 10, 1000])
         thr = [{'kind': 'threads', 'dispatcher': k, 'threads': n, 'rounds': 10, 'corpus': 'std'} for k in ('sync', 'async') for n in (2, 4, 8, 16)]
-        return [c for i, c in enumerate(cells + thr * 3) if i % nshards == shard]
+        return [c for i, c in enumerate(cells + thr * 3 + self._growth_matrix(1000)) if i % nshards == shard]
 
     def corpus(self):
         t = lambda doc: {'doc': doc, 'ascii': True, 'indent': 0, 'pad': '', 'huge': None, 'mangle': None}  # noqa: E731
@@ -361,6 +395,43 @@ class C13(Check):
             discs.append(Disc("C13/retention/view-instance-retained", f"{alive_views} of {created_views} view instances still alive after gc | {where}"))
         classes = [f"retention/{spec['flavour']}", f"retention/{spec['validator']}", f"retention/n={n}", f"retention/{kind}"]
         return Outcome(discs, n >= 10, classes, evaluations=n)
+
+    def _run_growth(self, spec) -> Outcome:
+        """three passes of n requests whose client-supplied text never repeats; the number of gc-tracked objects alive after a pass
+        must not grow from the second to the third pass (the first pass warms caches up)"""
+        kind = spec['dispatcher']
+        d = _retention_dispatcher(kind, spec['validator'], spec['flavour'])
+        n = spec['n']
+        names = spec['templates']
+
+        def one_pass() -> Any:
+            for k in range(n):
+                GROWTH_COUNTER[0] += 1
+                i = GROWTH_COUNTER[0]
+                body = GROWTH_TEMPLATES[names[k % len(names)]](i)
+                text = '{"broken-%d' % i if body is None else json.dumps(body)
+                try:
+                    hm.run_dispatch(kind, d, text, Ctx())
+                except Exception as e:
+                    return e
+            return None
+
+        counts = []
+        for _ in range(3):
+            err = one_pass()
+            if err is not None:
+                return Outcome([Disc(f"C13/growth/dispatch-raised/{type(err).__name__}", f"{err!r} templates={names} validator={spec['validator']}")], True, ['growth/crash'])
+            del VIEW_REFS[:]
+            gc.collect()
+            gc.collect()
+            counts.append(len(gc.get_objects()))
+        grown = counts[2] - counts[1]
+        discs = []
+        if grown >= n // 2:
+            discs.append(Disc("C13/growth/objects-accumulate-with-requests-served",
+                              f"{grown} more gc-tracked objects alive after {n} further requests (after passes: {counts}) | templates={names} "
+                              f"validator={spec['validator']} flavour={spec['flavour']} dispatcher={kind}"))
+        return Outcome(discs, True, ['growth/run'] + [f'growth/{t}' for t in names], evaluations=3 * n)
 
     def _run_threads(self, spec) -> Outcome:
         kind = spec['dispatcher']
